@@ -12,6 +12,7 @@
 #include <GeographicLib/Utility.hpp>
 #include <GeographicLib/MGRS.hpp>
 #include <GeographicLib/UTMUPS.hpp>
+#include "C04_doc.hpp"
 
 namespace tool_geoconvert {
 #include "../tools/GeoConvert.cpp"
